@@ -9,7 +9,7 @@ SUMMARY = {
  "C01": ("`updateNodeType`, `updateConjunctInfo`, `updateArcType`, `condition.meets`, `combineDefault(2)`, `mode`, `SimplifyBounds`; lemmas: kind ∩, flags ∪, mode max, arc min are ACI; `processListLit`, `processListVertex` (list length/closedness is a join)", "error reporting helpers; frames of `insertArc`, `yield`, …"),
  "C02": ("`opInfo` (panic unreachable), `repeatCount`, `MakeLabel`, `intDivOp` (zero divisor never reaches `big.Int`), `cmpTonode`, `token.Pos.Compare` + helpers = specification order (lemmas antisymmetry/reflexivity); the 20 scanner functions incl. `Scan` (no index/slice out of range, no explicit panic); the parser's panic protocol (`errf`, `incNestLevel`: explicit panics only with `panicking` set); `toposort.compareNodeByName` = specification order, lemmas strict/antisymmetric/transitive", "apd BigInt, label table bijective (C19), sort correctness"),
  "C03": ("`SimplifyBounds` (keepx/keepy/bottom/nofab over all atoms), `opInfo`, `cmpTonode`, `errIncompatibleBounds`, `NewBool`, `HasErr`, `Err`, `BinOp` comparison arms, `compile.init` (every predeclared integer range is a row of the spec table)", "apd, `BinOpBool`, `NewErrf`, `strconv.Itoa` model"),
- "C04": ("`mode`, `combineDefault`, `combineDefault2` (complete, finite domains), `Disjunction.Default`, `finalizeDisjunctions` (0 ≤ NumDefaults ≤ len, no hole), `appendDisjunct` (default mark never lost/invented when a duplicate is dropped), `equalTerminal` (bounds equal only with the same operator)", "`Equal`, `equalPartialNode`, `freeDisjunct`, `mergeCloseInfo` frames"),
+ "C04": ("`mode`, `combineDefault`, `combineDefault2` (complete, finite domains), `Disjunction.Default`, `finalizeDisjunctions` (0 ≤ NumDefaults ≤ len, no hole), `appendDisjunct` (default mark never lost/invented when a duplicate is dropped), `equalTerminal` (bounds equal only with the same operator), `Vertex.Default` (several defaults stay a disjunction of exactly those)", "`Equal`, `equalPartialNode`, `freeDisjunct`, `mergeCloseInfo` frames"),
  "C05": ("label packing/classification (12 functions, `arith bv`), `allowedInClosed`, `updateArcType`, `hasEvidenceForAll`, `hasEvidenceForOne` (direct evidence; no evidence without embedding scope), `lookupSet`; `ConstraintFromToken`/`ArcType.Token` inverse; lemma partition", "`containsDefID`, the embedding part of the evidence rule"),
  "C06": ("`BinOp` comparison arms, `cmpTonode`, `numOp`, `Add/Sub/Mul/Quo`, `exactIntOp`, `newNum`, `intDivOp`, `IntDiv/IntMod/IntQuo/IntRem`; `literal.init#1` (unlimited precision context) and `NumInfo.decimal` (literal × multiplier is exact)", "apd incl. BigInt, `internal.Context.Quo`"),
  "C07": ("`boundSimplifier.add`, `.expr`, `wrapBin`, `MatchBuiltinRange`, `BoundValue.Kind`; `literal.appendEscaped`, `appendEscapedRune`, `singleLineHashCount`; `ConstraintFromToken`/`ArcType.Token` inverse; `exporter.stringLabel`, `ast.NewStringLabel`, `StringLabelNeedsQuoting` (label class survives, `#x`/`_x` always quoted)", "`exporter.expr`, `IsValidIdent`, ast constructors, utf8"),
@@ -18,7 +18,7 @@ SUMMARY = {
  "C15": ("`fileNameOK`, `checkElem`, `checkPath`, `CheckFilePath`, `CheckedFiles.Err`, `CheckZip` (+closure; names and the size accounting), `Unzip` (effects), the `WalkDir` callback of `listFilesInDir` (SkipDir only for directories, every entry accounted for)", "os/io/zip/path/strings, WalkDir"),
  "C16": ("`Cache.downloadDir`, `Cache.Fetch` (ghost dirState/partial/held, CI after every effect), `downloadZip1` + its deferred cleanup (ghost zipState/tmpState: rename only of a fully written, closed temp file; stale temp files removed only if owned), `writeDiskCache` (same protocol for module files)", "all file-system effect contracts, glob axiom"),
  "C18": ("`Task.done`, `Task.isReady`, `Controller.markReady`, `Controller.runLoop` (go effect), `tagChildren`, `getTask` (node-to-task map covers a task's children in every state)", "frame contracts, channel contract, `initTasks`, user callbacks"),
- "C19": ("`getKey`, `IndexToString`, `getNextUniqueID`, `LoadInstance`, `getNodeFromInstance`, `AddInst` (two monitors), `Vertex.MatchAndInsert` (no write through a pre-existing Environment), `adt.New` (private context, fresh generation id)", "mutex exclusion, frames of `Accept`, `matchPattern`, `insertConjunct`"),
+ "C19": ("`getKey`, `IndexToString`, `getNextUniqueID`, `LoadInstance`, `getNodeFromInstance`, `AddInst` (two monitors), `Vertex.MatchAndInsert` (no write through a pre-existing Environment), `adt.New` (private context, fresh generation id), `Vertex.Default`/`DerefValue` (no write to a pre-existing vertex or list marker)", "mutex exclusion, frames of `Accept`, `matchPattern`, `insertConjunct`"),
  "C20": ("`subsumer.bound`, `isBottom`, `BoundValue.Kind`; trim's `comprehensionDependsOn` and `isAncestorOf` (depth ≤ 3 of the parent chains)", "`BinOpBool`, `IsConcrete`, `slices.Contains`"),
 }
 
